@@ -909,6 +909,30 @@ def small_population(front, sim, n):
     return " with an effective population size below 10 x samples" if any(v is not None and v < 10 * n for v in vals) else ""
 
 
+def bp_malformed(sim, chroms, n):
+    """semantic tag for signatures (the verdict itself is C02's holds_bp evaluated in Coq): the written .bp does not
+    hold 2n framed haplotypes each tiling the requested chromosomes up to the sentinel"""
+    if not sim or "rows" not in sim or n is None:
+        return ""
+    rows = sim["rows"]
+    want = [23 if c == "X" else int(c) if str(c).isdigit() else 0 for c in chroms]
+    ok = len(rows) == 2 * n and all(r[0] == k // 2 + 1 and r[1] == k % 2 + 1 for k, r in enumerate(rows))
+    for r in rows:
+        seen, prev = [], {}
+        for b in r[2]:
+            if not seen or seen[-1] != b[1]:
+                if seen and prev[seen[-1]] != 2**31 - 1:
+                    ok = False
+                seen.append(b[1])
+                prev[b[1]] = -1
+            if b[2] <= prev[b[1]] or b[0] <= 0:
+                ok = False
+            prev[b[1]] = b[2]
+        if seen != want or (seen and prev[seen[-1]] != 2**31 - 1):
+            ok = False
+    return "" if ok else " but the written .bp is not a well-formed tiling of the requested chromosomes"
+
+
 def py_classify(inp):
     """Python re-statement of the narrow documented violations (labels for evidence / signature only)."""
     return inp.get("label", "?")
@@ -1038,7 +1062,7 @@ class Front(Relation):
         elif "accept" in f:
             s = obs.get("sim") or {}
             what = "accepted" + (" and completed" if "completed" in s else f" then {s.get('stage')} raised {s.get('cls')}")
-            what += small_population(f, s, header_n(inp))
+            what += small_population(f, s, header_n(inp)) + bp_malformed(s, inp["chroms"], header_n(inp))
         elif "reject" in f:
             what = f"refused with message class {f['reject']}"
         else:
@@ -1301,6 +1325,8 @@ class Cli(Relation):
         if f is not None and "accept" in f:
             s = obs.get("sim") or {}
             what += ("" if "completed" in s else f" then {s.get('stage')} raised {s.get('cls')}") + small_population(f, s, CLI_N)
+            if obs.get("args"):
+                what += bp_malformed(s, obs["args"]["chroms"], CLI_N)
         rk = inp["label"].split()[0]
         flag = " with --only_breakpoint" if (rk == "region-start>end" and inp["only_bp"]) else ""
         return f"cli {rk}{flag}: {what}"
@@ -1312,13 +1338,16 @@ LEVEL_TEXT = (
     "Coq theorems over all inputs (any file contents, any whitespace, any listing of the map directory) about a Gallina "
     "model of validate_params + _prepare_coords + the CLI's region/chroms parser: the model accepts exactly the inputs "
     "satisfying the documented requirements (WellFormed, one conjunct per clause), every refusal names a requirement "
-    "that is really violated, the accepted population size is >= 10 * samples, the region test does not depend on "
-    "--only_breakpoint. The model is tied to /repo on every run by running validate_params -> simulate_gt -> "
+    "that is really violated, the population size validate_params returns is max(--popsize, 10 * samples) for both values "
+    "of --only_breakpoint, the region test does not depend on --only_breakpoint; the checker's demand on the written "
+    "breakpoint file (C02's holds_bp) is proved to mean 2n framed haplotypes each tiling every requested chromosome up to "
+    "the sentinel with positive-fraction source labels. The model is tied to /repo on every run by running validate_params -> simulate_gt -> "
     "write_breakpoints and the CLI on generated valid / singly-malformed configurations and evaluating agreement and the "
     "property's checker inside Coq."
 )
 LEVEL_NOTE = (
-    "'Accepted inputs simulate to completion' is observed on every accepted generated configuration here and proved "
+    "'Accepted inputs simulate to completion' is observed on every accepted generated configuration here (return within a "
+    "time limit, population size received by every _simulate call, C02's file checker on the written .bp) and proved "
     "for the model of the simulation in C02 (simulate_total / tiling); it is not re-proved in C20. float32 arithmetic "
     "of the fraction sum is abstracted to exact rationals (valid under the property's 'clear margin'). Python's "
     "int/float/split/regex are modelled for ASCII input."
